@@ -84,6 +84,7 @@ func init() {
 			RuleDef{Name: "PIPE-STALL", What: "the read-ahead loop examines the decompressor's error before deriving the next offset (a failed read-ahead must not park the worker while the reader waits)", Floor: 1, Run: rulePipeStall},
 			RuleDef{Name: "GEN-BIND", What: "read-ahead generations: the generation sent on control is the Reader's when the sender returns, and the goroutine stamps a decompressor with the generation of the very instruction whose offset it reads – a result for the latest instruction never looks stale (else the Reader drops it and waits on a parked goroutine); added with the read-ahead repair ae10916", Floor: 2, Run: ruleGenBind},
 			RuleDef{Name: "SYNC-REDIRECT", What: "after the Reader has filled a pool decompressor itself (nextBlock's synchronous fall-back) every path to a return re-points the read-ahead goroutine; Seek's slow path is R4's", Floor: 1, Run: ruleSyncRedirect},
+			RuleDef{Name: "FAILED-CURRENT", What: "nextBlock makes the failed block current before it returns that block's error: a Seek afterwards takes the slow path and re-points the parked read-ahead goroutine (shared with C02)", Floor: 1, Run: ruleFailedCurrent},
 			RuleDef{Name: "ERR-OVERWRITE", What: "a possibly failing store to Reader.err – direct, or left there by a helper on the same Reader – is read before the field is assigned again: an error that lives in a field is swallowed by overwriting it unseen (added after twelfth-round seed C09-n, once the protocol rules survived the helper extraction that had made them report it)", Floor: 2, Run: ruleErrOverwrite},
 			RuleDef{Name: "NEXT-LATCH", What: "the error of nextBlock is recorded in Reader.err before an exported method returns it, also through helpers (added after sixth-round seed C09-h)", Floor: 1, Run: ruleNextLatch},
 			RuleDef{Name: "BASE-ONCE", What: "Block.setBase is invoked only in nextBlockAt, with the offset the member is read from: a failed read-ahead result stays attributable to the block the reader waits for (added after fifth-round seed C09-f)", Floor: 1, Run: ruleBaseOnce},
